@@ -632,6 +632,16 @@ func TestMacatArgs(t *testing.T) {
 	add("empty2", []mtok{tk("proto", "push", 0), tk("connect", "ok", 0), tk("data", "empty", 0), tk("file", "ok", 0)}, long)
 	add("empty2", []mtok{tk("proto", "push", 0), tk("file", "empty", 0), tk("connect", "ok", 0), tk("data", "", 0)}, long)
 	add("empty2", []mtok{tk("data", "empty", 0), tk("proto", "push", 0), tk("data", "", 0), tk("connect", "ok", 0)}, long)
+	for _, p := range []string{"pair", "bus", "star", "req", "surveyor", "pub"} {
+		add("empty", []mtok{tk("proto", p, 0), tk("connect", "ok", 0), tk("data", "empty", 0), rt}, long)
+		add("empty", []mtok{tk("file", "empty", 0), tk("proto", p, 0), tk("connect", "ok", 0), tk("count", "", 2), tk("interval", "ok", 30), rt}, long)
+	}
+	// 1d. the format may be given once: a second format option is a conflict whichever the first one was
+	for _, f1 := range []string{"no", "raw", "ascii", "quoted", "msgpack"} {
+		for _, f2 := range []string{"no", "ascii"} {
+			add("fmt2", []mtok{tk("proto", "pull", 0), tk("connect", "ok", 0), tk("fmt", f1, 0), tk("fmt", f2, 0), rt}, short)
+		}
+	}
 	// 2. receivers and repliers
 	for _, p := range []string{"pull", "sub", "pair", "bus", "star", "rep", "respondent"} {
 		add("recv", []mtok{tk("proto", p, 0), addrFor(p), rt}, long)
@@ -649,7 +659,7 @@ func TestMacatArgs(t *testing.T) {
 	}
 	// 3. refusals: every token sequence of the alphabet up to a length, and single faults injected into good lines
 	alpha := []mtok{tk("proto", "push", 0), tk("proto", "pull", 0), tk("proto", "req", 0), tk("proto", "sub", 0), tk("bind", "ok", 0),
-		tk("connect", "bad", 0), tk("bind", "bad", 0), tk("sub", "x", 0), tk("fmt", "ascii", 0), tk("fmt", "bogus", 0), tk("data", "", 0),
+		tk("connect", "bad", 0), tk("bind", "bad", 0), tk("sub", "x", 0), tk("fmt", "ascii", 0), tk("fmt", "no", 0), tk("fmt", "bogus", 0), tk("data", "", 0),
 		tk("file", "ok", 0), tk("file", "missing", 0), tk("count", "", 1), tk("interval", "bad", 0), tk("rt", "bad", 0), tk("st", "bad", 0),
 		tk("delay", "bad", 0), tk("extra", "", 0), tk("unknown", "", 0), rt}
 	var seqs [][]mtok
